@@ -1572,16 +1572,18 @@ def evaluate(case, prop=None):
 
 
 def restart_point(case):
-    """Index of an `update` op (forced completion = quiescent point) that is
-    not the last op, or None.  Not applicable when an actor is a step: the new
+    """Index of a forced-completion op (`update`, or `run_for` with
+    force_complete: a quiescent point) that is not the last op, or None.  Not applicable when an actor is a step: the new
     engine's constructor runs a step phase, which for an actor is one more
     structural operation."""
     if any(a['kind'] == 'step' for a in case['actors']):
         return None
-    for i, op in enumerate(case['ops'][:-1]):
-        if op[0] == 'update':
-            return i
-    return None
+    cands = [i for i, op in enumerate(case['ops'][:-1])
+             if op[0] == 'update' or (op[0] == 'run_for' and len(op) > 2 and op[2])]
+    if not cands:
+        return None
+    # any quiescent point of the history, chosen by the case's own seed
+    return cands[Rng(derive(case.get('seed', 0), 'restart')).below(len(cands))]
 
 
 def _rows_after(run, T):
